@@ -345,9 +345,10 @@ def check(eng, res):
     c11.law_formulas(eng, res)
     c11.interval(eng, res)
     # the loop law links the draw to the block size: one draw, at least one unit, stop at the first unit beyond the target (from C07)
-    G = c07.Growth(eng)
     sub = type(res)(res.prop)
-    c07.check_growth(eng, sub, G)
+    G = c07.growth_or_violation(eng, sub)
+    if G is not None:
+        c07.check_growth(eng, sub, G)
     for o in sub.obligations:
         res.obligations.append(o)
     res.assumptions += ["SciPy's norm/uniform/poisson/rv_discrete/rv_continuous sample the law their parameters describe", "documented roles: gauss(mean, sigma), uniform(low, high), schulz_zimm(Mw, Mn), log_normal(Mn, dispersity), poisson(mean), flory_schulz(a)"]
